@@ -18,6 +18,8 @@ package build
 
 import (
 	"fmt"
+	"go/constant"
+	"go/types"
 	"io"
 	"os"
 	"os/exec"
@@ -161,6 +163,9 @@ func (c *context) collectPackageInputs(m *manifestBuilder, pkg *aPackage) error 
 		return fmt.Errorf("list sfiles: %w", err)
 	}
 	otherFiles = append(otherFiles, sfiles...)
+	// C sources named by the package's LLGoFiles constant are compiled into
+	// the cached archive too.
+	otherFiles = append(otherFiles, pkgLLGoFiles(p)...)
 	if len(otherFiles) > 0 {
 		otherList, err := digestFilesWithOverlay(otherFiles, c.conf.Overlay)
 		if err != nil {
@@ -182,6 +187,36 @@ func (c *context) collectPackageInputs(m *manifestBuilder, pkg *aPackage) error 
 	// (LINK_ARGS/NEED_RT/NEED_PY_INIT are appended later in saveToCache)
 
 	return nil
+}
+
+// pkgLLGoFiles returns the existing source files listed in the package's
+// LLGoFiles constant ("file1; file2" or "$(cflags...): file1; file2").
+func pkgLLGoFiles(p *packages.Package) []string {
+	if p.Types == nil || len(p.GoFiles) == 0 {
+		return nil
+	}
+	c, ok := p.Types.Scope().Lookup("LLGoFiles").(*types.Const)
+	if !ok || c.Val().Kind() != constant.String {
+		return nil
+	}
+	files := constant.StringVal(c.Val())
+	if strings.HasPrefix(files, "$") { // has cflags
+		if pos := strings.IndexByte(files, ':'); pos > 0 {
+			files = files[pos+1:]
+		}
+	}
+	dir := filepath.Dir(p.GoFiles[0])
+	var ret []string
+	for _, file := range strings.Split(files, ";") {
+		if file = strings.TrimSpace(file); file == "" {
+			continue
+		}
+		cFile := filepath.Join(dir, file)
+		if _, err := os.Stat(cFile); err == nil {
+			ret = append(ret, cFile)
+		}
+	}
+	return ret
 }
 
 // collectDependencyInputs adds dependency fingerprints/versions into manifest.
